@@ -6,17 +6,20 @@ use serde_json::{json, Value};
 use std::collections::BTreeMap;
 
 pub struct Flat<'a> {
+    /// prefix for node ids (two environments can be projected into one graph)
+    pub pfx: String,
     pub env: &'a TypeEnv,
     pub nodes: BTreeMap<String, Value>,
     pub cnt: usize,
 }
 impl<'a> Flat<'a> {
     pub fn new(env: &'a TypeEnv) -> Self {
-        Flat { env, nodes: BTreeMap::new(), cnt: 0 }
+        Flat { pfx: String::new(), env, nodes: BTreeMap::new(), cnt: 0 }
     }
+    pub fn with_prefix(env: &'a TypeEnv, pfx: &str) -> Self { Flat { pfx: pfx.to_string(), env, nodes: BTreeMap::new(), cnt: 0 } }
     fn fresh(&mut self) -> String {
         self.cnt += 1;
-        format!("n{}", self.cnt)
+        format!("{}n{}", self.pfx, self.cnt)
     }
     pub fn ty(&mut self, t: &Type) -> String {
         use TypeInner::*;
@@ -47,7 +50,7 @@ impl<'a> Flat<'a> {
             Future => prim("future", self),
             Unknown => prim("unknown", self),
             Var(name) => {
-                let id = format!("v_{name}");
+                let id = format!("{}v_{name}", self.pfx);
                 if !self.nodes.contains_key(&id) {
                     self.nodes.insert(id.clone(), json!({"k":"pending"}));
                     let body = match self.env.0.get(name) {
